@@ -1,6 +1,7 @@
 import LitexProofs.Axi.LiteRun
 import LitexProofs.Axi.LiteSharedData
 import LitexProofs.Axi.LiteCrossbarData
+import LitexProofs.Axi.LiteTimeout
 /-
   C08 — AXI-Lite (and AXI) interconnect keeps grants and routes until every response has returned.
 
@@ -26,8 +27,7 @@ import LitexProofs.Axi.LiteCrossbarData
                      address being presented
       addrHeld       an address whose data went ahead stays presented (same slave) until accepted      (AXI)
       respAfterData  B is given only after the data                                                    (AXI)
-  and cover single-beat data (AXI-Lite, AXI4 `len = 0`); AXI4 write bursts are covered by co-simulation and the
-  monitor only.  The theorems about the read direction of the AXI4 classes count responses on `last` (`c.full`).
+  and cover AXI-Lite transfers and AXI4 write bursts (`c.wlast` = where `last` sits in the packed payload).  The theorems about the read direction of the AXI4 classes count responses on `last` (`c.full`).
 
   The property as written ("each accepted address reaches the slave chosen by its address … for all schedules") is
   FALSE on the code without `sameSlave`, and the write-data part is false without NoDataBeforeAddr: see the two
@@ -145,17 +145,55 @@ theorem axl_route_crossbar_partial (c : Cfg) (rd : Bool) (hd : Disjoint c) (hn :
     Holds (Crossbar.machine c rd) c rd false (Crossbar.init c rd) Fifo.empty ins :=
   Crossbar.holds_of_inv c rd hd ins _ _ (Crossbar.inv_reset c rd hn)
 
+/-- **`axl_id_preserved`** — IDs (and every other pass-through field: the model carries the packed payloads at full
+    width, as the code does since fix 1eff3cf) are unchanged by the fabric.  For ANY field extractor `idOf` on the
+    packed payload: in a cycle in which the routing guarantee holds, the request id seen by a slave at its address
+    handshake is the id driven by the one master whose request it is, and the response id seen by the issuer at its
+    response handshake is the id driven by the slave.  With `axl_route_partial` / `axl_route_crossbar_partial` this
+    holds in every cycle of every run with a behaving environment (`axl_id_preserved_run`). -/
+theorem axl_id_preserved (c : Cfg) (shared : Bool) (g : Fifo) (x : DirIn) (o : DirOut) (h : RouteOK c shared g x o)
+    (idOf : Nat → Nat) :
+    (∀ j, j < c.m → sReq x o j = true →
+        ∃ i, i < c.n ∧ issuersTo c x o j = [i] ∧ idOf (o.toS j).aPay = idOf (x.ms i).aPay) ∧
+    (∀ j, j < c.m → sRsp x o j = true →
+        ∃ i, i < c.n ∧ (g j).head? = some i ∧ mRsp x o i = true ∧ idOf (o.toM i).rPay = idOf (x.ss j).rPay) := by
+  constructor
+  · intro j hj hs
+    obtain ⟨i, hi, hiss, _, hp⟩ := h.addr_s j hj hs
+    exact ⟨i, hi, hiss, by rw [hp]⟩
+  · intro j hj hs
+    obtain ⟨i, hi, hh, hm, hp, _⟩ := h.resp_s j hj hs
+    exact ⟨i, hi, hh, hm, by rw [hp]⟩
+
+/-- … in the first cycle after any run from reset of the shared interconnect (the crossbar is the same with
+    `axl_route_crossbar_partial`). -/
+theorem axl_id_preserved_run (c : Cfg) (rd : Bool) (hd : Disjoint c) (hn : 0 < c.n) (ins : List DirIn) (x : DirIn)
+    (henv : EnvAll (Shared.machine c rd) c rd (Shared.init c rd) Fifo.empty ins) (idOf : Nat → Nat) :
+    let r := runSB (Shared.machine c rd) c rd (Shared.init c rd) Fifo.empty ins
+    EnvOK c r.2 x →
+    (∀ j, j < c.m → sReq x (Shared.out c rd r.1 x) j = true →
+        ∃ i, i < c.n ∧ issuersTo c x (Shared.out c rd r.1 x) j = [i] ∧
+             idOf ((Shared.out c rd r.1 x).toS j).aPay = idOf (x.ms i).aPay) ∧
+    (∀ j, j < c.m → sRsp x (Shared.out c rd r.1 x) j = true →
+        ∃ i, i < c.n ∧ (r.2 j).head? = some i ∧ mRsp x (Shared.out c rd r.1 x) i = true ∧
+             idOf ((Shared.out c rd r.1 x).toM i).rPay = idOf (x.ss j).rPay) := by
+  intro r env
+  have hinv := Shared.inv_run c rd hd ins _ _ (Shared.inv_reset c rd hn) henv
+  exact axl_id_preserved c true r.2 x _ (Shared.step c rd hd r.1 r.2 x hinv env).1 idOf
+
 /- Full statement of the data part (FALSE on the code, negative witness 2): every write-data handshake reaches the slave
    of its address, for every AXI-legal master (AXI allows W before AW). -/
 
-/-- **`axl_route_data_partial`** (shared interconnect, single-beat data = AXI-Lite) — address/response part and data
-    part together, for every run from reset: in every cycle up to which the environment has behaved (`EnvOK` and
+/-- **`axl_route_data_partial`** (shared interconnect; AXI-Lite transfers and AXI4 write BURSTS: `c.wlast` reads `last`
+    off the packed data payload, a burst is the beats up to and including `last`, bursts belong to addresses in
+    order) — address/response part and data part together, for every run from reset: in every cycle up to which the environment has behaved (`EnvOK` and
     `DEnvOK`: NoDataBeforeAddr, an address whose data went ahead stays presented, B only after the data)
       * `RouteOK` (as in `axl_route_partial`), and
-      * every write-data handshake at a master is, in the same cycle and with the same payload, a data handshake at
-        exactly the slave of that master's oldest accepted address still waiting for data — or, with no such address,
-        at the slave of the address it is presenting — and every data handshake at a slave is the data of exactly
-        one such master.
+      * every write-data beat handed over by a master is, in the same cycle and with the same payload (hence the same
+        `last`), a data handshake at exactly the slave of that master's oldest accepted address whose burst is not
+        complete — or, with no such address, at the slave of the address it is presenting — and every data handshake
+        at a slave is the beat of exactly one such master; `last` closes the burst (`dgNext`): all beats of a burst
+        reach the slave of its address, in order; the counters count AW/B as coded (`axl_counter_inv_*`).
     Together with `RouteOK.addr_m` the address/data pair of a write reaches one and the same slave, chosen by the
     address. -/
 theorem axl_route_data_partial (c : Cfg) (rd : Bool) (hd : Disjoint c) (hn : 0 < c.n) (ins : List DirIn) :
@@ -226,6 +264,33 @@ theorem axl_served_within_crossbar (c : Cfg) (rd : Bool) (i j : Nat) (hi : i < c
     and vice versa, in every cycle (so every handshake trivially reaches the one slave and its one master). -/
 theorem axl_p2p_transparent (x : DirIn) : (P2P.machine.out () x).toS 0 = x.ms 0 ∧ (P2P.machine.out () x).toM 0 = x.ss 0 :=
   ⟨rfl, rfl⟩
+
+/-! ## Finite bus timeout (`AXI(Lite)InterconnectShared(timeout_cycles = t)`) -/
+
+/- Full statement (FALSE: a dead slave makes the watchdog answer in its place — that is its purpose, property C11):
+   the shared interconnect with a timeout behaves as the one without. -/
+
+/-- **`axl_timeout_transparent_partial`** — `SharedT.machine` = the shared interconnect composed with b-c11's
+    `AXI(Lite)Timeout` FSM as the class wires it (override of the shared bus, both lock counters read the overridden
+    bus).  On a HEALTHY bus — along the run no streak of consecutive cycles in which an address (write: or data)
+    transfer of the bus owner is presented and not accepted grows beyond `t` (`Shared.Healthy`) — the fabric with
+    `timeout_cycles = t` produces, from reset, exactly the outputs of the timeout-less fabric in every cycle, ends with
+    the same arbiter/decoder registers, and its watchdog never leaves WAIT.  Hence every theorem above
+    (`axl_route_partial`, `axl_route_data_partial`, `axl_lock_held_shared`, …) holds verbatim for the fabric users
+    build with a finite timeout, on every healthy run. -/
+theorem axl_timeout_transparent_partial (c : TCfg) (rd : Bool) (ins : List DirIn)
+    (hh : Shared.Healthy c.toCfg rd c.t (Shared.init c.toCfg rd) 0 ins) :
+    (SharedT.machine c rd).trace ins = (Shared.machine c.toCfg rd).trace ins ∧
+    ((SharedT.machine c rd).run ins).sh = (Shared.machine c.toCfg rd).run ins ∧
+    ((SharedT.machine c rd).run ins).tm.respond = false :=
+  SharedT.transparent c rd ins (SharedT.init c rd) 0 rfl (by simp [SharedT.init, Timeout.Axi.fInit]) hh
+
+/-- … in particular the routing guarantee of `axl_route_partial`. -/
+theorem axl_route_timeout_partial (c : TCfg) (rd : Bool) (hd : Disjoint c.toCfg) (hn : 0 < c.n) (ins : List DirIn)
+    (hh : Shared.Healthy c.toCfg rd c.t (Shared.init c.toCfg rd) 0 ins) :
+    (SharedT.machine c rd).trace ins = (Shared.machine c.toCfg rd).trace ins ∧
+    Holds (Shared.machine c.toCfg rd) c.toCfg rd true (Shared.init c.toCfg rd) Fifo.empty ins :=
+  ⟨(axl_timeout_transparent_partial c rd ins hh).1, axl_route_partial c.toCfg rd hd hn ins⟩
 
 /-! ## Concrete instances: the hypotheses are satisfiable, and the excluded regions really fail -/
 
@@ -377,7 +442,7 @@ example : ¬ DEnvOK cfg22 DGhost.empty xe := by
   intro h
   rcases h.dataAfterAddr 0 (by decide) (by decide) with h1 | h1
   · exact h1 rfl
-  · revert h1; decide
+  · exact absurd h1.1 (by decide)
 
 /-- Non-vacuity of `axl_route_data_partial`: data presented together with its address, taken by the slave one cycle
     before the address (inside NoDataBeforeAddr), the address then accepted by the same slave. -/
@@ -395,7 +460,7 @@ example :
     let dg1 := dgNext cfg22 false DGhost.empty xf o0
     let o1 := M.out (M.next s0 xf) xg
     mDat xf o0 0 = true ∧ sDat xf o0 1 = true ∧ sDat xf o0 0 = false ∧ mReq xf o0 0 = false ∧
-    dg1.ahead 0 = some 1 ∧ dg1.sd 1 = 1 ∧
+    dg1.ahead 0 = some (1, true) ∧ dg1.sd 1 = 1 ∧
     mReq xg o1 0 = true ∧ sReq xg o1 1 = true ∧ (dgNext cfg22 false dg1 xg o1).ahead 0 = none ∧
     (dgNext cfg22 false dg1 xg o1).wq 0 = [] := by
   decide
@@ -404,10 +469,72 @@ example : DEnvOK cfg22 DGhost.empty xf := by
   refine ⟨?_, ?_, ?_⟩
   · intro i _ h
     by_cases e : i = 0
-    · subst e; right; exact ⟨rfl, rfl⟩
+    · subst e; right; exact ⟨rfl, fun k h => by cases h⟩
     · simp [xf, e] at h
-  · intro i k _ h; cases h
+  · intro i k b _ h; cases h
   · intro j _ h
     by_cases e : j = 1 <;> simp [xf, e] at h
+
+/-- Non-vacuity of the burst reading (`c.wlast`): an AXI4 configuration whose packed `w` payload carries `last` in
+    bit 8.  A two-beat burst whose first beat goes ahead of the address acceptance: the address joins the waiting list
+    (the burst is not complete), the second beat (`last`) retires it and completes the burst at the slave. -/
+def cfgB : Cfg := { cfg22 with full := true, wlast := fun p => p.testBit 8 }
+def xb1 : DirIn :=   -- beat 1 (not last) with the address presented, slave 1 takes the data only
+  { ms := fun i => if i = 0 then { aValid := true, aAddr := 2, dValid := true, dPay := 0x011 } else {},
+    ss := fun j => if j = 1 then { dReady := true } else {} }
+def xb2 : DirIn :=   -- address accepted, beat 2 stalled
+  { ms := fun i => if i = 0 then { aValid := true, aAddr := 2, dValid := true, dPay := 0x122 } else {},
+    ss := fun j => if j = 1 then { aReady := true } else {} }
+def xb3 : DirIn :=   -- beat 2 (last) accepted
+  { ms := fun i => if i = 0 then { dValid := true, dPay := 0x122 } else {},
+    ss := fun j => if j = 1 then { dReady := true } else {} }
+
+example :
+    let M := Crossbar.machine cfgB false
+    let s0 := Crossbar.init cfgB false
+    let o0 := M.out s0 xb1
+    let dg1 := dgNext cfgB false DGhost.empty xb1 o0
+    let s1 := M.next s0 xb1
+    let o1 := M.out s1 xb2
+    let dg2 := dgNext cfgB false dg1 xb2 o1
+    let s2 := M.next s1 xb2
+    let o2 := M.out s2 xb3
+    let dg3 := dgNext cfgB false dg2 xb3 o2
+    sDat xb1 o0 1 = true ∧ dg1.ahead 0 = some (1, false) ∧ dg1.sd 1 = 0 ∧
+    sReq xb2 o1 1 = true ∧ dg2.ahead 0 = none ∧ dg2.wq 0 = [1] ∧
+    sDat xb3 o2 1 = true ∧ (o2.toS 1).dPay = 0x122 ∧ dg3.wq 0 = [] ∧ dg3.sd 1 = 1 := by
+  decide
+
+/-! ### Finite timeout: non-vacuity and the excluded region -/
+
+def cfgT : TCfg := { toCfg := cfg22, t := 1, dw := 8 }
+/-- master 0 presents read address 0, slave 0 does not accept it. -/
+def xs0 : DirIn := { ms := fun i => if i = 0 then { aValid := true, aAddr := 0, rReady := true } else {}, ss := fun _ => {} }
+/-- … slave 0 accepts it. -/
+def xs1 : DirIn :=
+  { ms := fun i => if i = 0 then { aValid := true, aAddr := 0, rReady := true } else {},
+    ss := fun j => if j = 0 then { aReady := true } else {} }
+
+/-- healthy for t = 1: one stalled cycle, then the handshake. -/
+example : Shared.Healthy cfg22 true 1 (Shared.init cfg22 true) 0 [xs0, xs1] := by
+  refine ⟨fun _ => by decide, ?_, trivial⟩
+  intro h
+  exact absurd h (by decide)
+
+example :
+    (((SharedT.machine cfgT true).trace [xs0, xs1]).map fun o => ((o.toM 0).aReady, (o.toS 0).aValid))
+      = [(false, true), (true, true)] := by decide
+
+/-- Outside `Healthy` (two stalled cycles with t = 1): the watchdog fires, and in the third cycle the fabric accepts
+    the address itself — the master sees `ar.ready`, no slave is ready — unlike the timeout-less fabric. -/
+example :
+    ¬ Shared.Healthy cfg22 true 1 (Shared.init cfg22 true) 0 [xs0, xs0, xs0] ∧
+    (((SharedT.machine cfgT true).trace [xs0, xs0, xs0]).map fun o => (o.toM 0).aReady) = [false, false, true] ∧
+    (((Shared.machine cfg22 true).trace [xs0, xs0, xs0]).map fun o => (o.toM 0).aReady) = [false, false, false] := by
+  refine ⟨?_, by decide, by decide⟩
+  intro h
+  have := h.2.1
+  revert this
+  decide
 
 end Litex.C08
